@@ -23,7 +23,7 @@ def PCV(v):
     return z3.BitVecVal(v, PCW)
 
 
-VISIBLE = ('sem_acq', 'sem_rel', 'lock_acq', 'lock_rel', 'sh_read', 'sh_write', 'sh_add')
+VISIBLE = ('sem_acq', 'sem_rel', 'sem_clear', 'lock_acq', 'lock_rel', 'sh_read', 'sh_write', 'sh_add')
 
 
 class System:
@@ -218,6 +218,8 @@ class System:
                         n = ins[1]
                         sem[n] = cur['sem'][n] + 1
                         err = z3.Or(err, cur['sem'][n] == BVV(2 ** W - 1))
+                    elif op == 'sem_clear':
+                        sem[ins[1]] = BVV(0)           # buffer.clear(): a counting object emptied in one step
                     elif op == 'lock_acq':
                         n = ins[1]
                         free = cur['lock'][n] == BVV(0)
